@@ -59,7 +59,7 @@ if [ $asan_ok = 1 ]; then
     cargo +nightly build --release --offline --target x86_64-unknown-linux-gnu > "$ALOG/build.log" 2>&1 || asan_ok=0
 fi
 if [ $asan_ok = 1 ]; then
-  VERIF_EVIDENCE_SUFFIX=.asan ASAN_OPTIONS="detect_leaks=0:exitcode=98:log_path=$ALOG/asan" \
+  VERIF_WALL_BUDGET_FACTOR=8 VERIF_EVIDENCE_SUFFIX=.asan ASAN_OPTIONS="detect_leaks=0:exitcode=98:log_path=$ALOG/asan" \
     $T/asan/x86_64-unknown-linux-gnu/release/harness C06 quick --seed "$SEED" > "$ALOG/run.log" 2>&1
   arc=$?
   grep -E "^(VIOLATION|INCONCLUSIVE|  class:)" "$ALOG/run.log" | sed 's/^VIOLATION property=C06/VIOLATION property=C06/'
